@@ -1,0 +1,59 @@
+//go:build verif
+
+package peersync
+
+import (
+	"context"
+	"time"
+)
+
+// This file is compiled only with the build tag `verif`. It exposes the
+// synchronous entry points of the peer-sync loops and the poller's in-memory
+// request-rate map to the verification harness in /verif. No production line
+// is changed: every function below only calls the unexported code as is.
+
+// VerifProcessMessage runs the inbound message handler synchronously (the
+// body of the handleMessages loop for one message).
+func (ps *PeerSync) VerifProcessMessage(ctx context.Context, msg CustomMessage) {
+	ps.handler.processMessage(ctx, msg)
+}
+
+// VerifCleanupExpired runs one sweep of the poller's cleanup loop.
+func (ps *PeerSync) VerifCleanupExpired(ctx context.Context) error {
+	return ps.poller.cleanupExpired(ctx)
+}
+
+// VerifInitialSync runs the start-up request round of Start.
+func (ps *PeerSync) VerifInitialSync(ctx context.Context) error {
+	return ps.performInitialSync(ctx)
+}
+
+// VerifShiftRequestTimes moves every recorded request time d into the past
+// (the harness's logical clock; nothing sleeps).
+func (ps *PeerSync) VerifShiftRequestTimes(d time.Duration) {
+	ps.poller.mu.Lock()
+	defer ps.poller.mu.Unlock()
+	for id, t := range ps.poller.lastRequestedAt {
+		ps.poller.lastRequestedAt[id] = t.Add(-d)
+	}
+}
+
+// VerifRequestTimes returns a copy of the poller's request-rate map.
+func (ps *PeerSync) VerifRequestTimes() map[string]time.Time {
+	ps.poller.mu.Lock()
+	defer ps.poller.mu.Unlock()
+	out := make(map[string]time.Time, len(ps.poller.lastRequestedAt))
+	for id, t := range ps.poller.lastRequestedAt {
+		out[id.String()] = t
+	}
+	return out
+}
+
+// VerifIntervals reports the time constants the instance runs with: known-peer
+// poll interval, request interval for unknown connected peers, cleanup timeout.
+func (ps *PeerSync) VerifIntervals() (poll, request, timeout time.Duration) {
+	return ps.logic.pollInterval, ps.poller.requestInterval, ps.poller.timeout
+}
+
+// VerifVersion reports the protocol version this instance advertises.
+func (ps *PeerSync) VerifVersion() uint64 { return ps.version.Value() }
